@@ -56,7 +56,7 @@ class BinarySensor(Device):
         if reset_after is not None:
             self._reset_task: Task | None = Task(
                 name=f"binary_sensor.reset_{id(self)}",
-                target=partial(self._set_internal_state, False),
+                target=self._reset_state,
                 wait_before_start=reset_after,
             )
         else:
@@ -112,6 +112,13 @@ class BinarySensor(Device):
                 self.after_update()
         elif self.always_callback:
             self.after_update()
+
+    def _reset_state(self) -> None:
+        """Set the state to off after `reset_after` has passed."""
+        # keep the RemoteValue in step - an 'on' GroupValueResponse
+        # received afterwards is a change of state again
+        self.remote_value.value = False
+        self._set_internal_state(False)
 
     async def _counter_task(self, wait_seconds: float) -> None:
         """Trigger when context window has passed once with counter values and once reset."""
